@@ -61,6 +61,10 @@ pub(super) fn optimize(
   optimizable_while_loop: &OptimizableWhileLoop,
   counter: &samlang_heap::TempPStrCounter,
 ) -> Option<Vec<Statement>> {
+  #[cfg(samlang_verif)]
+  if crate::verif::loop_subpass_disabled(crate::verif::LOOP_ALGEBRAIC_OPTIMIZATION) {
+    return None;
+  }
   let BasicInductionVariableWithLoopGuard {
     name: basic_induction_variable_with_loop_guard_name,
     initial_value: Expression::Int32Literal(initial_guard_value),
